@@ -82,7 +82,7 @@ func payloadVariants() (all []plSpec, reduced []plSpec) {
 }
 
 func csMenus() [][]mikey.SRTPIDEntry {
-	es := []mikey.SRTPIDEntry{{PolicyNo: 0, SSRC: 0, ROC: 0}, {PolicyNo: 1, SSRC: 0xFFFFFFFF, ROC: 0xFFFFFFFF}, {PolicyNo: 255, SSRC: 1, ROC: 0x80000000}}
+	es := []mikey.SRTPIDEntry{{PolicyNo: 0, SSRC: 0, ROC: 0}, {PolicyNo: 1, SSRC: 0xFFFFFFFF, ROC: 0xFFFFFFFF}, {PolicyNo: 255, SSRC: 0x01020304, ROC: 0x80000001}}
 	out := [][]mikey.SRTPIDEntry{nil}
 	for _, a := range es {
 		out = append(out, []mikey.SRTPIDEntry{a})
